@@ -98,6 +98,12 @@ CHECKS = {
             "must be clean and switching/quitting allowed; no buffer's text may change while it is not current.",
             "The text is observed, not predicted; a buffer equal to its file only by coincidence may be reported either way; the "
             "line-buffer half of the dirty flag is covered exhaustively by C04's probe (modified flag after every operation).", "3/C02"),
+    "C20": ("exploration", "stateful model-based testing of buffer switching against a multi-buffer reference (MRU table, ids, aliases)",
+            "Generated histories over 2-16 files of :e/:e!/:e #/:b n,+,-,%,#,^/:b !/:b ~, edits, line moves, :u, :w and a final :q; after "
+            "every step the :b listing (ids, aliases, paths, '*'), the text and the current line of the buffer reached are compared with "
+            "the model, so that a switch that disturbs another buffer's text, position, undo state or dirty flag shows up when that buffer is "
+            "visited again.",
+            "Per-buffer text/current line from models/lined.py; deleting the last buffer and a 17th file are not generated.", "3/C20"),
 }
 
 ALL = ["C%02d" % i for i in range(1, 21)]
